@@ -186,4 +186,5 @@ def obligations(tier, seed):
             for k in ((1, 3) if q else (1, 2, 4)):
                 yield Ob('zero_padding', {'n': n, 'which': which, 'k': k, 'dt': None if which == 'arias' else 0.01})
     for dt, sec in ([(0.5, 2), (0.5, 3), (0.25, 2)] if q else [(0.5, 2), (0.5, 3), (0.25, 2), (0.25, 3), (0.2, 2), (0.1, 2)]):
-        yield Ob('cav_dp', {'dt': dt, 'seconds': sec}, query_ms=120000, timeout_s=1500)
+        # dt = 0.1 (21 symbolic samples, |a| of every sample in each window integral) exhausted 1500 s: optional
+        yield Ob('cav_dp', {'dt': dt, 'seconds': sec}, query_ms=120000, timeout_s=1500, optional=(dt <= 0.1))
